@@ -462,6 +462,12 @@ class EvalArm(Obligation):
                     try:
                         czm = Concretizer(e.solver.model(), runner)
                         sx, stt, payload, us = native_of(czm)
+                        if stt == 'NOWITNESS':
+                            # abstract decimals: the long path exists only as long as every rust_decimal operation on it is assumed to succeed; no
+                            # value of the boundary pool makes the compiled code run long (the real products overflow after a few steps)
+                            res.setdefault('unconfirmed_abstract', []).append('%s: over-budget path without a native witness' % self.name)
+                            res['spurious'] = res.get('spurious', 0) + 1
+                            return
                         res['confirmed'].append(dict(sexpr=sx, native='%s after %d us natively; more than %d counted steps (crate calls + loop iterations) on this path' % (stt, us, e.step_limit), profile=profile,
                                                      what='step limit: ' + str(out[1]), us=us, key='%s|%s|step limit|%s|' % (self.ev, self.kind, profile), obligation=self.name))
                         raise eng_mod.StopExploration()
@@ -507,6 +513,20 @@ class EvalArm(Obligation):
                         r = e.check(*(extra + [q])) if q is not False else z3.unsat
                         if q is True: r = z3.sat
                         if r == z3.unsat: res['discharged'] += 1; continue
+                        if r == z3.unknown and getattr(self, 'small_domain', None):
+                            # operands range over a small finite box (the stated bound of this obligation): split the query into one query per
+                            # operand assignment - each is decided by the solver on constants - instead of one query over the box
+                            import itertools
+                            dom = self.small_domain
+                            verdict = z3.unsat; witness = None
+                            for combo in itertools.product(*[range(lo, hi + 1) for _, lo, hi in dom]):
+                                asg = [v_ == x for (v_, _, _), x in zip(dom, combo)]
+                                rr = e.check(*(extra + [q] + asg))
+                                if rr == z3.sat: verdict = z3.sat; witness = asg; break
+                                if rr == z3.unknown: verdict = z3.unknown; break
+                            res['case_splits'] = res.get('case_splits', 0) + 1
+                            if verdict == z3.unsat: res['discharged'] += 1; continue
+                            if verdict == z3.sat: r = z3.sat; extra = extra + witness
                         if r == z3.unknown:
                             # the solver gave up: boundary operand values on the compiled code may still show a violation (never a pass)
                             pc_ = pool_confirm(out, oc_, 'wrong value (expected %s)' % str(oc_[2])[:80], extra + ([q] if q is not True else []))
